@@ -64,7 +64,7 @@ def make_prog(rng, with_m=None):
     return P5(scalars, arrays1, arrays2, init, [], vals)
 
 
-def header(rng, v, allow_scalar=True, allow_self=False):
+def header(rng, v, allow_scalar=True, allow_self=False, allow_arr=True):
     """DO header text; returns (text, (lo, hi, st)) with lo/hi as source text"""
     kind = rng.random()
     if kind < 0.45:
@@ -87,7 +87,7 @@ def header(rng, v, allow_scalar=True, allow_self=False):
             lo_t = rng.choice(["s0", "s1"])
         elif x < 0.8:
             hi_t = rng.choice(["s0", "s1", "s1+2"])
-        else:
+        elif allow_arr:
             hi_t = f"b({rng.randint(0, 4)})+{rng.randint(2, 6)}"
     if allow_self and rng.random() < 0.5:
         hi_t = f"{v}-{LV_INIT[v] - rng.randint(4, 9)}"
@@ -171,8 +171,8 @@ def gen_fuse(rng):
 
 def gen_swap(rng):
     p = make_prog(rng, with_m=True)
-    ho, _ = header(rng, "j", allow_scalar=(rng.random() < 0.2))
-    hi_, _ = header(rng, "i", allow_scalar=(rng.random() < 0.2))
+    ho, _ = header(rng, "j", allow_scalar=(rng.random() < 0.2), allow_arr=False)
+    hi_, _ = header(rng, "i", allow_scalar=(rng.random() < 0.2), allow_arr=False)
     x = rng.random()
     if x < 0.1:
         hi_ = f"do i = 1, j"                       # triangular: refused
